@@ -85,11 +85,40 @@ theorem idmap_agrees (evs : List Ev) (k : Nat) (h : ((run {} evs).1.ctx k).reque
     (run {} evs).1.idmap ((run {} evs).1.ctx k).requestId = some k :=
   (inv_reachable evs).ctx_map k h
 
-/-- not proved: the C04 judge accepts every trace of the model (`∀ evs, judge04 (trace evs) = none`);
-    it needs a simulation between the judge's bookkeeping and the model state.  The judge is run on the
-    implementation's traces and, through the correspondence, on the model's. -/
+/-- request bodies submitted in a history -/
+def sendBodies (evs : List Ev) : List Bytes :=
+  evs.filterMap fun e => match e with | .send _ _ m _ => some m.body | _ => none
+
+/-- what the check's generator guarantees and the C04 judge relies on: no operation is aborted with
+    result 0 (`nni_aio_abort(aio, 0)`, a harness-only operation), request bodies are pairwise distinct -/
+def JudgeHyps (evs : List Ev) : Prop := (∀ a, Ev.abort a 0 ∉ evs) ∧ (sendBodies evs).Nodup
+
+/-- the unconditional statement "the C04 judge accepts every trace of the model" is FALSE: after
+    `abort <recv aio> 0` the model (and req.c: replayed, same outputs) completes the receive with result 0 and
+    no message and cancels the request; the judge only treats non-zero completions as failures, so it still
+    expects the next reply with that id to be delivered to the receive -/
+theorem judge04_rejects_abort_with_zero :
+    ¬ ∀ evs : List Ev, Nng.ReqSpec.judge04 (evs.zip (run {} evs).2) = none := by
+  intro h
+  have := h [.openSock "req" false, .pipeAdd 0x31, .send none 0 ⟨[], [1]⟩ .inf, .recv none 1 .inf,
+             .abort 1 0, .recvDone 0 (.ok (beEncode 4 idMin ++ [7]))]
+  revert this
+  decide
+
+/-- NOT proved: under `JudgeHyps` the C04 judge accepts every trace of the model
+    (`judge04 (trace evs) = none`); it needs a simulation between the judge's bookkeeping and the model
+    state (the id-map invariant `inv_reachable` and the list invariant `inv2_reachable` are its
+    ingredients).  The judge is run on the implementation's traces and, through the correspondence, on
+    the model's. -/
 def judge_accepts_model_statement : Prop :=
-  ∀ evs : List Ev, Nng.ReqSpec.judge04 (evs.zip (run {} evs).2) = none
+  ∀ evs : List Ev, JudgeHyps evs → Nng.ReqSpec.judge04 (evs.zip (run {} evs).2) = none
+
+/-- the hypotheses are satisfiable by a non-trivial history, which the judge accepts -/
+example :
+    let evs : List Ev := [.openSock "req" false, .pipeAdd 0x31, .send none 0 ⟨[], [1, 2]⟩ .inf, .recv none 1 .inf,
+                          .recvDone 0 (.ok (beEncode 4 idMin ++ [7])), .recv none 2 .nb, .poll]
+    JudgeHyps evs ∧ Nng.ReqSpec.judge04 (evs.zip (run {} evs).2) = none := by
+  refine ⟨⟨fun a h => by simp at h, by decide⟩, by decide⟩
 
 /-- the hypotheses of the theorems are satisfiable: a request on the wire, its reply is delivered to the
     waiting receive -/
